@@ -417,7 +417,7 @@ func checkC10(c *Ctx) {
 	}
 	nEncProgs := len(progs)
 	progs = append(progs, c10StructuredProgs()...)
-	c.Rule = fmt.Sprintf("(a) %d programs: for every implemented encoding the program enc;enc;enc from 2 base states, plus %d structured programs (self-modifying code, LDIR over its own code, block instructions, loops, calls, prefix chains, IM switches, each also with NMI/IM1/IM2/IM0 requests at 3 boundaries); for each program of N Steps: a second fresh CPU from the same initial state, and for EVERY boundary k in 1..N-1 a fresh CPU value rebuilt from copies of States, HALT, the pending request, memory and device, must follow the original Step for Step (States, HALT, pending, memory digest after every Step); one CPU value reused across all programs must behave like a fresh one; all ordered pairs enc1;enc2 of implemented encodings (quick: every 4th as enc1) with a snapshot between the two instructions. (b) for every implemented encoding: 2 CPUs on their own memories execute it at the same time with different register/memory data, scheduling points inside every memory/port callback, ALL interleavings enumerated by the controlled scheduler (no preemption bound), plus 2-Step programs with a point between Steps at preemption bound 2; each CPU's final state and access trace must equal its solo run; both CPUs accepting a request at the same time (7 request kinds) in 3 variants: own request objects, ONE request object handed to both CPUs, CPU 1 a by-value copy of CPU 0 made after CPU 0 served such a request; two CPUs without IO device. (c) first-use pass: every implemented encoding as the very first instruction of 2 fresh processes, then swept against refz80 in that process (no dependence on process history); the request constructors give every caller storage of its own (all 256 bytes; in-place edits and appends do not reach other requests). Non-trivial: snapshots at k>=1 and schedules with at least one context switch (counted).", len(progs), len(progs)-nEncProgs)
+	c.Rule = fmt.Sprintf("(a) %d programs: for every implemented encoding the program enc;enc;enc from 2 base states, plus %d structured programs (self-modifying code, LDIR over its own code, block instructions, loops, calls, prefix chains, IM switches, each also with NMI/IM1/IM2/IM0 requests at 3 boundaries); for each program of N Steps: a second fresh CPU from the same initial state, and for EVERY boundary k in 1..N-1 a fresh CPU value rebuilt from copies of States, HALT, the pending request, memory and device, must follow the original Step for Step (States, HALT, pending, memory digest after every Step); one CPU value reused across all programs must behave like a fresh one; all ordered pairs enc1;enc2 of implemented encodings (quick: every 4th as enc1) with a snapshot between the two instructions. (b) for every implemented encoding: 2 CPUs on their own memories execute it at the same time with different register/memory data, scheduling points inside every memory/port callback, ALL interleavings enumerated by the controlled scheduler (no preemption bound), plus 2-Step programs with a point between Steps at preemption bound 2; each CPU's final state and access trace must equal its solo run; both CPUs accepting a request at the same time (7 request kinds) in 3 variants: own request objects, ONE request object handed to both CPUs, CPU 1 a by-value copy of CPU 0 made after CPU 0 served such a request; two CPUs without IO device. (c) first-use pass: every implemented encoding as the very first instruction of 2 fresh processes, then swept against refz80 in that process (no dependence on process history); a recovery scenario in a process of its own (a device panic during a mode-0 instruction on one CPU, recovered; then both CPUs accept mode-0 requests: each reaches its own memory only, the process survives); the request constructors give every caller storage of its own (all 256 bytes; in-place edits and appends do not reach other requests). Non-trivial: snapshots at k>=1 and schedules with at least one context switch (counted).", len(progs), len(progs)-nEncProgs)
 	c.Bound = "every snapshot point; all interleavings of 2 single-Step CPUs; 2-Step programs at preemption bound 2 (thorough: 3)"
 	type pair struct{ a, b *c10Machine }
 	pairs := make([]*pair, 16)
@@ -689,6 +689,7 @@ func checkC10(c *Ctx) {
 		runFirstUse(c, "c10/firstuse", all)
 		runEnvSense(c, "c10/environment")
 		c06Constructors(c)
+		runRecoverScenario(c, "c10/recovery")
 	}
 	c.Exhaustive = true
 	c.Sample(c10Prog{Name: progs[nEncProgs].Name, PC: 0x0100, Steps: progs[nEncProgs].Steps, K: 5})
